@@ -203,7 +203,7 @@ def make_slot(c, path, sym, i, facts):
         kinds = {"any_expr": ["Any"], "all_expr": ["All"], "collection_path_expr": ["Any", "All"]}[sym]
         path.assume(node_inv(c, op, kinds))
         path.assume(z3.Or(node_inv(c, lam, ["Lambda"]), z3.And(U.is_tag("NoneV", lam), U.is_kind("Any", op))))
-        return (Sym(op), E.from_pv(lam) if False else Sym(lam))
+        return (Sym(op), Sym(lam))
     if sym == "lambda_":
         v = z3.Const(f"s{i}", PV)
         path.assume(node_inv(c, v, ["Lambda"]))
@@ -630,7 +630,7 @@ def tree_term(c, prod, exp):
     if lhs == "lambda_":
         return U.node("CollectionLambda", ident("items"), U.node("Any"), t)
     if lhs == "single_navigation_expr":
-        return c["prepend"](ident("root"), t) if False else None
+        return None
     return t
 
 
